@@ -36,7 +36,7 @@ pub static INFO: PropInfo = PropInfo {
 };
 
 pub fn run(ctx: &Ctx, out: &mut Outcome) {
-    super::run_loop(ctx, out, 4000, 200_000, 15, one_run);
+    super::run_loop(ctx, out, 8000, 200_000, 15, one_run);
 }
 
 type Item = (u8, u64, Option<usize>);
